@@ -418,6 +418,16 @@ pub fn edits(root: &Node) -> Vec<(String, Vec<u8>)> {
             Node::Raw { unit, bytes, .. } => {
                 let k = if *unit == 0 { 0 } else { bytes.len() / unit };
                 let idxs: Vec<usize> = if k <= 12 { (0..k).collect() } else { vec![0, 1, k / 2, k - 2, k - 1] };
+                // the whole field at once (an all-zero field modulus, an all-ones digest list, ...)
+                if bytes.len() >= 2 {
+                    for (what, fill) in [("all bytes = 0", 0u8), ("all bytes = ff", 0xFF)] {
+                        let mut t = root.clone();
+                        if let Node::Raw { bytes, .. } = get_mut(&mut t, &path) {
+                            bytes.fill(fill);
+                        }
+                        emit(format!("{name}: {what}"), &t);
+                    }
+                }
                 for &i in &idxs {
                     for (what, f) in [("+1", 0u8), ("=0", 1), ("=ff", 2), ("top byte ^80", 3)] {
                         let mut t = root.clone();
